@@ -47,12 +47,14 @@ pub struct Cleanup {
     pub reversal_abort: Option<u8>,
     /// None = completion
     pub eod_abort: Option<u8>,
+    /// the end-of-day abort also carries a receipt number (BMP 87): None = no such field
+    pub eod_abort_receipt: Option<u64>,
     pub eod_pre: Vec<Pre>,
 }
 
 impl Cleanup {
     pub fn plain() -> Cleanup {
-        Cleanup { pending: None, reversal_abort: None, eod_abort: None, eod_pre: vec![] }
+        Cleanup { pending: None, reversal_abort: None, eod_abort: None, eod_abort_receipt: None, eod_pre: vec![] }
     }
 }
 
@@ -111,7 +113,11 @@ pub fn build(cfg: &ClientCfg, steps: &[Step], cleanup_for: &dyn Fn(usize) -> Cle
             }
             if ok {
                 reqs.push(Cmd::EndOfDay);
-                sc.plan.push(call, Cmd::EndOfDay, ExPlan { pre: cl.eod_pre.clone(), result: cl.eod_abort.map(ExResult::Abort).unwrap_or(ExResult::Normal), ..ExPlan::default() });
+                sc.plan.push(call, Cmd::EndOfDay, ExPlan { pre: cl.eod_pre.clone(), result: match (cl.eod_abort, cl.eod_abort_receipt) {
+                    (None, _) => ExResult::Normal,
+                    (Some(c), None) => ExResult::Abort(c),
+                    (Some(c), Some(r)) => ExResult::AbortWithReceipt(c, Some(r)),
+                }, ..ExPlan::default() });
                 if let Some(c) = cl.eod_abort {
                     if c != 0xa0 {
                         ok = false;
@@ -507,7 +513,7 @@ pub fn run(ctx: &Ctx, id: &str) -> i32 {
     report.rule = if id == "C07" {
         format!("call histories of begin/commit/cancel over tokens {{a,b,c}} (tokens introduced in this order: symmetry), model-guided bounded-exhaustive: every history of exactly {depth} calls with every terminal outcome (reservation: success / abort / missing receipt / abort after a status information that already carried a receipt number; reversal: completed / abort / abort B8 echoing the request's receipt number) branched where the model accepts the call, x transactions_max_num 0..3; then a probe suffix cancel(a), cancel(b), cancel(c); plus {n_walks} random walks to depth 40 with empty / 99-byte / non-ASCII tokens and max 0..4. Additionally: every abort code 0..255 x {{no receipt, own receipt echoed, FFFF, another receipt}} for commit and cancel with one and two open transactions, and a link fault (close/garbage/NACK/foreign/silence) at every packet of the reservation exchange followed by commit/cancel (the token must map to the receipt of the reservation that completed). Oracle: sequential client model (D.3) for the result class, 'refused => no request and no connection', 'commit/cancel carry the receipt number the terminal issued for that token', and the hook snapshot of the client's map after every call. Non-trivial = history with at least one accepted call; distinct by hash of (history, max).")
     } else {
-        format!("the C07 histories (exactly {depth} calls, max 1..3) and {n_walks} random walks, each run under a clean-up behaviour chosen per scenario: pending query reports {{no receipt field, FFFF, a dangling receipt}}, reversal of the dangling receipt {{completes, aborts}}, end-of-day {{completion, abort A0, every abort code 00..FF in turn}}, with intermediate/print packets inside the end-of-day exchange. Oracle (temporal checker over the request log per call): a commit/cancel the terminal completed that leaves no token open is followed by exactly PendingQuery -> PreAuthReversal(d) iff d reported -> EndOfDay(password); result Ok on completion/A0, error otherwise; with tokens remaining no PendingQuery/EndOfDay. Non-trivial = history containing at least one completed commit/cancel; distinct by hash of (history, max, clean-up behaviour).")
+        format!("the C07 histories (exactly {depth} calls, max 1..3) and {n_walks} random walks, each run under a clean-up behaviour chosen per scenario: pending query reports {{no receipt field, FFFF, a dangling receipt}}, reversal of the dangling receipt {{completes, aborts}}, end-of-day {{completion, abort A0, every abort code 00..FF in turn, aborts (B8, A0, B4, ...) that also carry a receipt number}}, with intermediate/print packets inside the end-of-day exchange. Oracle (temporal checker over the request log per call): a commit/cancel the terminal completed that leaves no token open is followed by exactly PendingQuery -> PreAuthReversal(d) iff d reported -> EndOfDay(password); result Ok on completion/A0, error otherwise; with tokens remaining no PendingQuery/EndOfDay. Non-trivial = history containing at least one completed commit/cancel; distinct by hash of (history, max, clean-up behaviour).")
     };
     report.exhaustive = Some(true);
     report.assumptions = vec![
@@ -559,7 +565,13 @@ pub fn run(ctx: &Ctx, id: &str) -> i32 {
                     reversal_abort: if (v / 64) % 5 == 0 { Some(0xb4) } else { None },
                     eod_abort: match (v / 512) % 3 {
                         0 => None,
-                        _ => Some(code),
+                        1 => Some(code),
+                        _ => Some([0xb8u8, 0xa0, 0xb4, code][((v / 7) % 4) as usize]),
+                    },
+                    eod_abort_receipt: match (v / 128) % 4 {
+                        0 => Some(1 + (v / 5) % 9999),
+                        1 => Some(0xffff),
+                        _ => None,
                     },
                     eod_pre: match (v / 4096) % 4 {
                         0 => vec![],
